@@ -33,7 +33,8 @@ class WorldC17(World):
     PROBES = ('insert-above-last', 'insert-equal-existing', 'insert-equal-last', 'insert-between',
               'pop-last', 'pop-middle', 'pop0-refused', 'shared-lists-edit',
               'eval-on-breakpoint', 'eval-beyond-last', 'reload-after-edit', 'single-breakpoint-effect',
-              'reload-via-hook', 'two-edits-between-evaluations', 'restore-after-edits', 'integer-slopes', 'snapshot-copy-evaluated')
+              'reload-via-hook', 'two-edits-between-evaluations', 'restore-after-edits', 'integer-slopes', 'snapshot-copy-evaluated', 'pop-with-numpy-index',
+              'exported-then-used')
     REAL = ('pmutt.mixture.cov.PiecewiseCovEffect (all methods)', 'pmutt.io.json encoder/object hook',
             'json module')
     SIMULATED = ('1-3 clients issuing calls over a shared pool of effects (seeded scheduler)',
@@ -113,6 +114,8 @@ class WorldC17(World):
         kinds = (['insert'] * sw['w_insert'] + ['pop'] * sw['w_pop'] + ['eval'] * sw['w_eval'] +
                  ['reload'] * sw['w_reload'] + ['ckpt'] * sw.get('w_ckpt', 0))
         kind = rng.choice(kinds)
+        if kind == 'ckpt' and rng.random() < 0.3:
+            return {'c': c, 'op': 'export', 'args': {'id': k, 'how': rng.choice(['yaml', 'cti'])}}
         if kind == 'ckpt' and rng.random() < 0.4:
             return {'c': c, 'op': 'snapshot', 'args': {'id': k, 'how': rng.choice(['deepcopy', 'pickle', 'copy'])}}
         if kind == 'ckpt':
@@ -149,7 +152,7 @@ class WorldC17(World):
                 i = 0
             else:
                 i = rng.choice([n - 1, rng.randrange(1, n)])
-            return {'c': c, 'op': 'pop', 'args': {'id': k, 'i': i}}
+            return {'c': c, 'op': 'pop', 'args': {'id': k, 'i': i, 'np_index': rng.random() < 0.25}}
         if kind == 'reload':
             return {'c': c, 'op': 'reload', 'args': {'id': k, 'via': rng.choice(['from_dict', 'hook', 'hook']),
                                                      'cycles': rng.choice([1, 1, 2])}}
@@ -249,7 +252,12 @@ class WorldC17(World):
                     raise Violation('pop0-refused', 'pop(0) did not raise; breakpoints now %r' % (obj.intervals,))
             else:
                 ctx.probe('pop-last' if i == len(before) - 1 else 'pop-middle')
-                self.real(obj.pop, i, _what='pop')
+                if a.get('np_index'):
+                    import numpy as _np
+                    ctx.probe('pop-with-numpy-index')
+                    self.real(obj.pop, _np.int64(i), _what='pop(np.int64)')     # an index that came out of np.searchsorted
+                else:
+                    self.real(obj.pop, i, _what='pop')
                 ref = list(self.ref[a['id']])
                 victim = (float(before[i][0]), float(before[i][1]))
                 if victim in ref:
@@ -288,6 +296,20 @@ class WorldC17(World):
             self.lists[a['id']] = (new.intervals, new.slopes)
             self.group[a['id']] = ('r', a['id'], ctx.step)
             out = len(got)
+        elif name == 'export':
+            obj = self._get(a['id'])
+            before = (list(obj.intervals), list(obj.slopes))
+            from pmutt.omkm.units import Units
+            u = Units(quantity='mol', energy='kcal', act_energy='kcal/mol')
+            if a['how'] == 'yaml':
+                self.real(obj.to_omkm_yaml, units=u, _what='to_omkm_yaml')
+            else:
+                self.real(obj.to_cti, units=u, _what='to_cti')
+            ctx.probe('exported-then-used')
+            if (list(obj.intervals), list(obj.slopes)) != before:
+                raise Violation('pairs-preserved', 'effect %d: writing it out (%s) changed its breakpoints / slopes from %r to %r' % (
+                    a['id'], a['how'], before, (list(obj.intervals), list(obj.slopes))))
+            out = 'exported'
         elif name == 'snapshot':
             obj = self._get(a['id'])
             import copy as _copy
@@ -430,6 +452,10 @@ class WorldC17(World):
                     if not _close(v, u, 1e-12, 1e-12 * smax):
                         raise Violation('derived-getters', 'effect %d: %soRT=%r but UoRT=%r at x=%r' % (
                             k, nm, v, u, x))
+                # the energy itself, through the inherited dimensional getter
+                hd = self.real(obj.get_H, units='kcal/mol', T=T, x=x, _what='get_H(units=kcal/mol)')
+                if not _close(float(hd), e, 1e-10, 1e-10 * smax):
+                    raise Violation('derived-getters', 'effect %d: get_H(kcal/mol, x=%r) = %r but UoRT*R*T = %r' % (k, x, hd, e))
                 if T2:
                     u2 = self.real(obj.get_UoRT, x=x, T=T2, _what='get_UoRT')
                     if not _close(float(u2) * T2, float(u) * T, 1e-10, 1e-9 * smax):
